@@ -38,11 +38,14 @@ def _worker(job):
     budget = case.get("budget", 240 if tier == "quick" else 2400)
     try:
         signal.signal(signal.SIGALRM, _alarm)
-        signal.setitimer(signal.ITIMER_REAL, budget)
+        # repeating: an exception raised by the handler while a z3 object's __del__ runs is swallowed by the interpreter, so fire again
+        signal.setitimer(signal.ITIMER_REAL, budget, 3.0)
         mod = importlib.import_module(modname)
         out = mod.run_case(case, {"tier": tier, "seed": seed, "known": set(active)})
         res.update(out)
     except CaseTimeout:
+        signal.setitimer(signal.ITIMER_REAL, 0)
+        signal.signal(signal.SIGALRM, signal.SIG_IGN)
         res["timeout"] = True
         try:  # keep what the case had established before the budget ran out
             import harness.common as hc
